@@ -78,8 +78,19 @@ STARTS = {
     "chain3": (["C", "O", "H"], [(0, 1), (1, 2)]),
     "star4": (["C", "H", "H", "O"], [(0, 1), (0, 2), (0, 3)]),
 }
-START_NAMES = ["empty", "chain3", "star4", "mol2", "clone", "unpickled"]
+START_NAMES = ["empty", "chain3", "star4", "mol2", "clone", "unpickled", "clone2", "cloned", "twins"]
+# start states that keep PARTNER objects alive next to the molecule that is edited (the property
+# holds for every molecule alive, not only the edited one):
+#   clone     : m = cls(src)                      partners: src
+#   clone2    : m = cls(cls(src))                 partners: src, the first clone
+#   cloned    : m = src, c = cls(src)             partners: the clone c (the SOURCE is edited)
+#   twins     : m, t built from ONE coords array and ONE charges array   partners: t, the caller's arrays
+#   unpickled : m = loads(dumps(src))             partners: src
+BASE_OF = {"clone": "star4", "unpickled": "chain3", "clone2": "chain3", "cloned": "chain3", "twins": "chain3"}
 KINDS = {"Molecule": Molecule, "Structure": Structure}
+
+# argument kinds of the operations that take an iterable of bonds
+ARG_CLASS = {"list": "sequence", "tuple": "sequence", "set": "set", "gen": "one-shot", "iter": "one-shot", "map": "one-shot"}
 
 UNSPEC = None  # value nobody specified: must be numeric, is pinned after the step
 
@@ -96,7 +107,7 @@ class Rec:
 
 
 class MState:
-    __slots__ = ("kind", "start", "mol", "atoms", "ident", "order", "bonds", "hist", "keep", "nmut", "view", "vkind", "confs", "vbonds", "vorder", "cache")
+    __slots__ = ("kind", "start", "mol", "atoms", "ident", "order", "bonds", "hist", "keep", "nmut", "view", "vkind", "confs", "vbonds", "vorder", "cache", "partners")
 
     def __init__(self):
         self.kind = None
@@ -115,6 +126,7 @@ class MState:
         self.vbonds = None
         self.vorder = None
         self.cache = None
+        self.partners = []  # [role, object, snapshot by value]
 
 
 def exc_name(e):
@@ -194,6 +206,13 @@ class MSys:
             return "del_bond"
         if k == "delbond_bad":
             return "del_bond(invalid)"
+        if k == "setq":
+            return "atomic_charges[i]="
+        if k == "setxyz":
+            return "coords[i]="
+        if k == "xbonds":
+            what = {"m": "members", "f": "foreign-atom", "e": "nothing"}[op[3]]
+            return f"{op[1]}_bonds({what},{ARG_CLASS[op[2]]})"
         if k == "rmsub":
             return "remove_substituent"
         if k in ("addH", "addH1"):
@@ -217,13 +236,15 @@ class MSys:
             self._mol2_path = p
         return self._mol2_path
 
-    def _built(self, cls, elems, bonds, with_charges):
+    def _built(self, cls, elems, bonds, with_charges, arrays=None):
         atoms = [Atom(e, label=label_of(k)) for k, e in enumerate(elems)]
+        if len(elems) == 4:
+            atoms = tuple(atoms)  # the atom "list" of a constructor may be any sequence
         kw = {}
         if elems:
-            kw["coords"] = [list(coord_of(k, self.pose)) for k in range(len(elems))]
+            kw["coords"] = [list(coord_of(k, self.pose)) for k in range(len(elems))] if arrays is None else arrays[0]
             if with_charges:
-                kw["atomic_charges"] = [charge_of(k) for k in range(len(elems))]
+                kw["atomic_charges"] = [charge_of(k) for k in range(len(elems))] if arrays is None else arrays[1]
         m = cls(atoms, name="m", **kw) if elems else cls(name="m")
         for a, b in bonds:
             m.connect(a, b)
@@ -236,23 +257,39 @@ class MSys:
         st.kind = kind
         st.start = name
         given = True
+        partners = []
         if name in STARTS:
             elems, bonds = STARTS[name]
             m = self._built(cls, elems, bonds, has_q)
         elif name == "mol2":
             elems, bonds = MOL2_ELEMS, MOL2_BONDS
             m = cls.load_mol2(str(self.mol2_file()))
-        elif name == "clone":
-            elems, bonds = STARTS["star4"]
+        elif name in ("clone", "clone2", "unpickled"):
+            elems, bonds = STARTS[BASE_OF[name]]
             src = self._built(cls, elems, bonds, has_q)
-            st.keep.append(src)
-            m = cls(src)
-            given = False  # fidelity of a copy is C06's subject: the clone's own report is "what it was given"
-        elif name == "unpickled":
-            elems, bonds = STARTS["chain3"]
-            src = self._built(cls, elems, bonds, has_q)
-            m = pickle.loads(pickle.dumps(src))
-            given = False
+            partners.append(["source", src])
+            if name == "clone":
+                m = cls(src)
+            elif name == "clone2":
+                mid = cls(src)
+                partners.append(["first-clone", mid])
+                m = cls(mid)
+            else:
+                m = pickle.loads(pickle.dumps(src))
+            given = False  # fidelity of a copy is C06's subject: the copy's own report is "what it was given"
+        elif name == "cloned":
+            elems, bonds = STARTS[BASE_OF[name]]
+            m = self._built(cls, elems, bonds, has_q)
+            partners.append(["clone", cls(m)])
+        elif name == "twins":
+            elems, bonds = STARTS[BASE_OF[name]]
+            C = np.array([list(coord_of(k, self.pose)) for k in range(len(elems))], dtype=np.float64)
+            Q = np.array([charge_of(k) for k in range(len(elems))], dtype=np.float64)
+            m = self._built(cls, elems, bonds, has_q, arrays=(C, Q))
+            partners.append(["twin", self._built(cls, elems, bonds, has_q, arrays=(C, Q))])
+            partners.append(["caller-coords-array", C])
+            if has_q:
+                partners.append(["caller-charges-array", Q])
         else:  # pragma: no cover
             raise HarnessError(f"unknown start {name}")
         st.mol = m
@@ -265,6 +302,7 @@ class MSys:
             st.ident[id(a)] = k
         st.order = list(range(len(real)))
         st.bonds = [_pair(a, b) for a, b in bonds]
+        st.partners = [[role, o, _psnap(o)] for role, o in partners]
         if self.quiet:
             self.refresh(st)
             return True
@@ -273,6 +311,16 @@ class MSys:
             self.viol(st, op, sym, what)
             return False
         return True
+
+    def check_partners(self, st):
+        """every OTHER object alive in the state (the source of a clone, a clone, a twin built from the
+        same arrays, the caller's own arrays) was not edited: it must be exactly what it was"""
+        for role, o, before in st.partners:
+            now = _psnap(o)
+            if now != before:
+                fld = next((k for k in before if before[k] != now.get(k)), "?")
+                return f"partner({role})-changed:{fld}", f"the {role} of the edited object was never touched, but its {fld} changed: {_pshow(before[fld])} -> {_pshow(now.get(fld))}"
+        return None, None
 
     # ---- the oracle -----------------------------------------------------------------------
     def verify(self, st):
@@ -504,6 +552,26 @@ class MSys:
         for k in range(nb):
             ops.append(("delbond", k))
         ops.append(("delbond_bad",))
+        # iterable-taking operations with every KIND of iterable (a one-shot iterable can be walked once)
+        if self.full:
+            xk = {"m": ["list", "tuple", "set", "gen", "iter", "map"], "f": ["list", "tuple", "set", "gen", "iter", "map"], "e": ["list", "gen"]}
+            ak = ["list", "gen"]
+        else:
+            xk = {"m": ["list", "set", "gen"], "f": ["tuple", "iter", "map"], "e": ["gen"]}
+            ak = ["gen"]
+        for which, need in (("m", 2), ("f", 1), ("e", 0)):
+            if n >= need:
+                for akind in xk[which]:
+                    ops.append(("xbonds", "extend", akind, which))
+        for which, need in (("m", 2), ("f", 1)):
+            if n >= need:
+                for akind in ak:
+                    ops.append(("xbonds", "append", akind, which))
+        # in-place writes of one value (the partners of the state must not see them)
+        for i in range(n) if self.full else sorted({0, n - 1} & set(range(n))):
+            ops.append(("setxyz", i))
+            if st.kind == "Molecule":
+                ops.append(("setq", i))
         for k in range(nb):
             ops.append(("rmsub", k, 0))
             ops.append(("rmsub", k, 1))
@@ -719,6 +787,54 @@ class MSys:
             def predict():
                 st.bonds.remove(pr)
 
+        elif kind == "xbonds":
+            _, meth, akind, which = op
+            n = len(real)
+            f1, f2 = Atom("F", label="f1"), Atom("Cl", label="f2")
+            st.keep += [f1, f2]
+            new = []
+            if which == "m":
+                idx = [(0, 1)] + ([(0, 2)] if n >= 3 else [])
+                bl = [Bond(obj(i), obj(j)) for i, j in idx]
+                newpairs = lambda ids: [_pair(aid_at(i), aid_at(j)) for i, j in idx]
+            elif which == "f":
+                validity = "either"
+                bl = [Bond(obj(n - 1), f1), Bond(f1, f2)]
+                new = [(f1, "F"), (f2, "Cl")]
+                newpairs = lambda ids: [_pair(aid_at(n - 1), ids[0]), _pair(ids[0], ids[1])]
+            else:
+                bl = []
+                newpairs = lambda ids: []
+            st.keep += bl
+            arg = {"list": lambda: list(bl), "tuple": lambda: tuple(bl), "set": lambda: set(bl), "gen": lambda: (b for b in bl), "iter": lambda: iter(bl), "map": lambda: map(lambda b: b, bl)}[akind]()
+            call = (lambda: m.extend_bonds(arg)) if meth == "extend" else (lambda: m.append_bonds(*arg))
+
+            def predict():
+                ids = []
+                for a, e in new:
+                    aid = self._fresh(st)
+                    st.atoms[aid] = Rec(a, e, a.label, UNSPEC, UNSPEC)
+                    st.ident[id(a)] = aid
+                    ids.append(aid)
+                st.bonds += newpairs(ids)
+
+        elif kind == "setq":
+            aid = aid_at(op[1])
+            v = charge_of(aid) + 8.0
+            call = lambda: m.atomic_charges.__setitem__(op[1], v)
+
+            def predict():
+                st.atoms[aid].charge = v
+
+        elif kind == "setxyz":
+            aid = aid_at(op[1])
+            b0 = coord_of(aid, self.pose)
+            v = (b0[0], b0[1], b0[2] + 32.0)
+            call = lambda: m.coords.__setitem__(op[1], list(v))
+
+            def predict():
+                st.atoms[aid].coord = v
+
         elif kind == "delbond_bad":
             validity = "invalid"
             b = Bond(Atom("F"), Atom("Cl"))
@@ -809,6 +925,8 @@ class MSys:
             sym, what = self.verify(st)
             if sym and raised is not None:
                 what = f"after the call raised {exc_name(raised)}: {what}"
+            if sym is None and st.partners:
+                sym, what = self.check_partners(st)
         if sym:
             self.viol(st, op, prefix + sym, what)
             st.hist.append(hist_op)
@@ -876,11 +994,32 @@ class MSys:
         ids = tuple(st.order)
         bonds = tuple((st.ident.get(id(b.a1)), st.ident.get(id(b.a2))) for b in m.bonds)
         extra = (str(m.coords.dtype), str(m.atomic_charges.dtype) if st.kind == "Molecule" else None)
-        return (ids, bonds, extra, self.observe(st))
+        return (ids, bonds, extra, st.start if st.partners else None, self.observe(st))
 
 
 class _Sym(Exception):
     pass
+
+
+def _psnap(o):
+    """by-value snapshot of a partner object (public accessors only)"""
+    if isinstance(o, np.ndarray):
+        return {"array": (str(o.dtype), o.shape, o.tobytes())}
+    d = {"atoms": tuple(id(a) for a in o.atoms), "coords": (str(o.coords.dtype), o.coords.shape, o.coords.tobytes())}
+    d["bonds"] = tuple((id(b.a1), id(b.a2)) for b in o.bonds)
+    q = getattr(o, "atomic_charges", None)
+    if q is not None:
+        d["atomic_charges"] = (str(q.dtype), q.shape, q.tobytes())
+    return d
+
+
+def _pshow(v):
+    try:
+        if isinstance(v, tuple) and len(v) == 3 and isinstance(v[2], bytes):
+            return np.frombuffer(v[2], dtype=v[0]).reshape(v[1]).tolist()
+    except Exception:
+        pass
+    return repr(v)[:120]
 
 
 # =================================================================================================
@@ -1126,17 +1265,29 @@ def _repro_of(hist, pose):
         built("m", *STARTS[name])
     elif name == "clone":
         built("src", *STARTS["star4"])
-        L.append(f"m = {kind}(src)")
+        L.append(f"m = {kind}(src)   # partner kept alive: src")
+    elif name == "clone2":
+        built("src", *STARTS["chain3"])
+        L.append(f"mid = {kind}(src); m = {kind}(mid)   # partners kept alive: src, mid")
+    elif name == "cloned":
+        built("m", *STARTS["chain3"])
+        L.append(f"clone = {kind}(m)   # partner kept alive: clone (the SOURCE m is edited)")
+    elif name == "twins":
+        built("m", *STARTS["chain3"])
+        L.append("# (in the harness m and a twin are both built from ONE float64 coords array C and ONE charges array Q, all kept alive)")
+        L.append("C = m.coords.copy(); Q = getattr(m, 'atomic_charges', np.zeros(3)).copy()")
+        L.append(f"m = {kind}([Atom(a.element, label=a.label) for a in m.atoms], coords=C" + (", atomic_charges=Q" if has_q else "") + ")")
+        L.append(f"twin = {kind}([Atom(a.element, label=a.label) for a in m.atoms], coords=C" + (", atomic_charges=Q" if has_q else "") + ")")
     elif name == "unpickled":
         built("src", *STARTS["chain3"])
-        L.append("m = pickle.loads(pickle.dumps(src))")
+        L.append("m = pickle.loads(pickle.dumps(src))   # partner kept alive: src")
     else:
         L.append("# start state: the 5-atom generated mol2 file (N C C H H, bonds 1-2 2-3 3-4 3-5), loaded with load_mol2")
         built("m", MOL2_ELEMS, MOL2_BONDS)
     used = 0
 
     # ids are only needed for the values handed to add_atom: recompute them like the harness does
-    ids = list(range(len(STARTS.get(name, (MOL2_ELEMS,))[0]))) if name not in ("clone", "unpickled") else list(range(len(STARTS["star4" if name == "clone" else "chain3"][0])))
+    ids = list(range(len(STARTS[BASE_OF[name]][0]))) if name in BASE_OF else list(range(len(STARTS.get(name, (MOL2_ELEMS,))[0])))
     live = set(ids)
 
     def fresh():
@@ -1187,6 +1338,16 @@ def _repro_of(hist, pose):
             L.append(f"n = m.n_atoms; m.append_bonds(Bond(m.atoms[{op[1]}], m.atoms[({op[1]}+1)%n]), Bond(m.atoms[{op[1]}], m.atoms[({op[1]}+2)%n]))")
         elif k == "delbond":
             L.append(f"m.del_bond(m.bonds[{op[1]}])")
+        elif k == "xbonds":
+            mk = {"m": "[Bond(m.atoms[0], m.atoms[1])] + ([Bond(m.atoms[0], m.atoms[2])] if m.n_atoms > 2 else [])", "f": "[Bond(m.atoms[-1], f), Bond(f, Atom('Cl'))]", "e": "[]"}[op[3]]
+            wrap = {"list": "bl", "tuple": "tuple(bl)", "set": "set(bl)", "gen": "(b for b in bl)", "iter": "iter(bl)", "map": "map(lambda b: b, bl)"}[op[2]]
+            L.append(f"f = Atom('F'); bl = {mk}")
+            L.append(f"m.extend_bonds({wrap})" if op[1] == "extend" else f"m.append_bonds(*{wrap})")
+            L.append("print('bond parents', [b.parent is m for b in m.bonds])")
+        elif k == "setq":
+            L.append(f"m.atomic_charges[{op[1]}] = 8.5   # in-place write")
+        elif k == "setxyz":
+            L.append(f"m.coords[{op[1]}] = [1.0, 2.0, 35.0]   # in-place write")
         elif k == "delbond_bad":
             L.append("try: m.del_bond(Bond(Atom('F'), Atom('Cl')))\nexcept Exception as e: print('raised', type(e).__name__)")
         elif k == "rmsub":
@@ -1199,6 +1360,8 @@ def _repro_of(hist, pose):
             L.append(f"m.add_implicit_hydrogens(m.atoms[{op[1]}])")
         elif k == "query":
             L.append("print([(a.label, a.element, m.get_atom_index(a.element), m.get_atom_index(a.label)) for a in m.atoms])")
+    for v in ("src", "mid", "clone", "twin"):
+        L.append(f"if '{v}' in dir(): print('partner {v}:', {v}.coords.tolist(), getattr({v}, 'atomic_charges', None))")
     L.append("print('atoms', [(a.element.symbol, a.label, a.idx) for a in m.atoms])")
     L.append("print('coords', m.coords.shape, m.coords.tolist())")
     if has_q:
@@ -1262,6 +1425,11 @@ def run(ctx):
         "demanded exactly when a2 is gone and exactly one atom was created, otherwise nothing is demanded of the routine's semantics. "
         "add_implicit_hydrogens computes every position before its first write and never deletes, join / concatenate build a new "
         "object: no other routine in scope has the read-delete-write shape; where hydrogens go is C16",
+        "start states clone / clone2 / cloned / twins / unpickled keep their partner objects (source, clones, a twin built from the "
+        "same coords and charges arrays, the caller's arrays) alive; after every step every partner must be exactly what it was "
+        "(the property holds for every molecule alive, and the caller's arrays were never handed over)",
+        "operations that take an iterable of bonds are run with every kind of iterable (list, tuple, set, generator, iterator, "
+        "map, empty); the result must not depend on the kind",
         "stale user-held row views across add/del are not part of the claim; a row view handed INTO add_atom (add an atom where atom i "
         "is) must be copied: the new atom keeps that value",
         "values nobody specified (charge of add_atom without charge, position of an implicit hydrogen) need only be numeric "
